@@ -23,6 +23,8 @@ NOTES = {  # seed -> (detected_by, note) overriding / complementing the logged r
  'C10-2': ('C10 (argv-round-trip)', 'missed at first; caught after U+00A0, U+3000, U+2028 and form feed were added to the argument alphabet'),
  'C35-2': ('C35 (inverse-gives-back-original)', 'missed at first; caught after inputs built from the encoders own escape tokens (&lt; &amp; %20 \\n ...) were added'),
  'C24-1': ('C24 (flag-not-dropped)', 'missed at first (value flag followed by a dash-prefixed token was outside the asserted lists); caught after the invariant "a given value flag followed by an undeclared dash-token is reported or rejected, never silently dropped" was added'),
+ 'C32-1': ('C32 (race report Named.Get vs closePipe/CreatePipe)', 'missed by the first quick tier (the two-session pipe program and the three-operation registry pairs had been trimmed out of it for speed); caught after they were put back'),
+ 'C32-2': ('C32 (race report paths.(*mxiPath).GetString vs Set)', 'missed at first: no program re-assigned a path-typed global concurrently with its expansion; caught after the typed-global programs were added'),
  'C19-2': ('NOT DETECTED', 'needs a pipe constructor that fails while returning a typed-nil (pty without /dev/ptmx, or a no_pipe_net build): no such failure can be provoked from the command alphabet'),
 }
 ROOT = '/verif'
